@@ -34,6 +34,7 @@ MEDIUM = {"quick": {"n": [6, 7, 8, 10], "k": 4}, "thorough": {"n": [6, 7, 8, 10,
 
 
 def cases(tier):
+    yield {"kind": "empty"}
     m = MEDIUM[tier]
     for lat in (True, False):
         for n in m["n"]:
@@ -140,9 +141,35 @@ def run_medium(case, ctx):
     ctx.outcome(("medium", case["n"], case["k"], case["lattice"]))
 
 
+def run_empty(case, ctx):
+    """The diagram without finite bars (a (0,2) array, or nothing but an infinite bar): every depth is the
+    zero function, i.e. no depth is returned (or only identically zero ones); no exception."""
+    for what, dg in (("(0,2) array", np.zeros((0, 2))), ("one infinite bar", np.array([[0.0, float("inf")]])), ("empty list", [])):
+        for mode in ("eager", "getitem-free"):
+            ctx.state(("empty", what, mode))
+            from persim import PersLandscapeExact
+
+            ctx.trans()
+            pl = PersLandscapeExact(dgms=[np.array([[0.0, 1.0]]), dg], hom_deg=1, compute=(mode == "eager"))
+            if mode != "eager":
+                pl.compute_landscape()
+            ctx.valid()
+            cp = pl.critical_pairs
+            if any(abs(float(y)) > 0 for depth in cp for _, y in depth):
+                ctx.violation("landscape-value-empty", "the landscape of a diagram without finite bars (%s) is not identically zero" % what, observed=cp)
+            nrm = ctx.call(pl.p_norm, 2)
+            ctx.valid()
+            if not (nrm == 0):
+                ctx.violation("landscape-value-empty", "the norm of the landscape of a diagram without finite bars (%s) is not 0" % what, observed=nrm)
+    ctx.nontriv("diagram_without_finite_bars")
+    ctx.outcome("empty")
+
+
 def run_case(case, ctx):
     if case.get("kind") == "medium":
         return run_medium(case, ctx)
+    if case.get("kind") == "empty":
+        return run_empty(case, ctx)
     D = case["D"]
     n = len(D)
     ctx.state(D)
